@@ -1132,6 +1132,31 @@ func init() {
 				r.rw = kind == "rwmutex"
 				rootsArg = args[2]
 			}
+			if kind == "mutexfield" || kind == "rwmutexfield" {
+				r.rw = kind == "rwmutexfield"
+				// the lock is named by (struct pointer, field name): if a change removed the field
+				// the harness still compiles and every access to the guarded data is reported
+				r.kind = "mutex"
+				iv := args[1].(IfaceV)
+				fname := ex.strArg(args[2])
+				rootsArg = args[3]
+				if pt, ok := iv.t.Underlying().(*types.Pointer); ok {
+					if st, ok := pt.Elem().Underlying().(*types.Struct); ok {
+						for i := 0; i < st.NumFields(); i++ {
+							if st.Field(i).Name() == fname {
+								if sp, ok := iv.v.(Ptr); ok && sp.cell != nil {
+									if sv, ok := (*sp.cell).(*StructV); ok {
+										r.lock = &sv.f[i]
+									}
+								}
+							}
+						}
+					}
+				}
+				if r.lock == nil {
+					r.name += "(no such lock any more)"
+				}
+			}
 			if kind == "confined" {
 				// goroutine confinement: only code running (transitively) inside the named function may touch it
 				r.owner = ex.strArg(args[1])
@@ -1145,7 +1170,7 @@ func init() {
 			var cells []*Value
 			var objs []interface{}
 			for _, root := range ex.ifaceArgs(rootsArg) {
-				if kind == "rwmutex" {
+				if kind == "rwmutex" || kind == "rwmutexfield" {
 					// shallow: the variable and the map object it holds
 					if p, ok := root.(Ptr); ok && p.cell != nil {
 						cells = append(cells, p.cell)
@@ -1188,6 +1213,8 @@ func init() {
 	reg("vf:vfGuardNoWrite", guard("nowrite"))
 	reg("vf:vfGuardAtomic", guard("atomic"))
 	reg("vf:vfGuardConfined", guard("confined"))
+	reg("vf:vfGuardField", guard("mutexfield"))
+	reg("vf:vfGuardFieldRW", guard("rwmutexfield"))
 	reg("vf:vfGuardStop", func(ex *Exec, fr *Frame, args []Value, site ssa.Instruction) Value {
 		if ex.monitor == nil {
 			ex.monitor = &lockMonitor{cells: map[*Value]*guardRule{}, objs: map[interface{}]*guardRule{}, reports: map[string]bool{}}
